@@ -19,9 +19,9 @@ class Max(Validator):
 
     @overrides(Validator)
     def validate(self, value: Union[int, float]) -> Union[int, float]:
-        if value > self._value and self._include_boundary:
+        if not value <= self._value and self._include_boundary:
             self.raise_exception(msg=f'greater then allowed: {value} is not <= {self._value}', value=value)
-        elif value >= self._value and not self._include_boundary:
+        elif not value < self._value and not self._include_boundary:
             self.raise_exception(msg=f'greater then allowed: {value} is not < {self._value}', value=value)
 
         return value
